@@ -19,14 +19,14 @@ def add(pid, level, text, note, technique, design_ref):
     )
 
 add("C11", "exploration",
-    "Generated-input search with a linear-scan oracle: every size 0..40 is enumerated over 8 layouts, query boxes and every stop position; rapid draws multisets up to 300 (thorough 5000) boxes over 7 layouts and 3 coordinate classes, a third of them mapped to non-dyadic ordinates, with scripted callbacks (nil, Stop, Stop wrapped by %w / two %w verbs / errors.Join, a foreign error). Each search result is compared with the exact expectation (set of hits, exactly-once, non-decreasing exact rational distance up to the float64 rounding of a squared distance, no call after a non-nil return, error identity, Count, Extent) and the verif-tag hook checks the internal node invariants after load and after every search. Exploration is the right level: the quantifier is over unbounded item multisets and only the small sizes can be enumerated.",
+    "Generated-input search with a linear-scan oracle: every size 0..40 is enumerated over 8 layouts, query boxes and every stop position; rapid draws multisets up to 300 (thorough 5000) boxes over 7 layouts and 3 coordinate classes, a third of them mapped to non-dyadic or tiny (1e-170) ordinates, plus enumerated sizes 1023..5000 around the depth-6/7 boundaries, with scripted callbacks (nil, Stop, Stop wrapped by %w / two %w verbs / errors.Join, a foreign error). Each search result is compared with the exact expectation (set of hits, exactly-once, non-decreasing exact rational distance up to the float64 rounding of a squared distance, no call after a non-nil return, error identity, Count, Extent) and the verif-tag hook checks the internal node invariants after load and after every search. Exploration is the right level: the quantifier is over unbounded item multisets and only the small sizes can be enumerated.",
     "Trusted: the linear-scan oracle, math/big, rapid v1.3.0, the add-only VerifCheck hook. Holds on everything generated; absence of defects outside the generated sizes/layouts is not shown.",
     "property-based testing (rapid) + exhaustive small-size enumeration vs linear-scan model",
     "DESIGN.md C11")
 
 
 add("C04", "exploration",
-    "Generated-input search over geometry models (7 types x 4 coordinate types, empties at every position, nesting depth 4, zero values, all float64 classes incl. NaN/Inf in Z/M) x per-element byte order x trailing bytes. Oracles: an independent WKB writer/reader written from the ISO spec and bit-wise structural comparison of model trees; library decode must invert library encode and the independent mixed-endian encoding, re-encode must reproduce bytes, Value/Scan of Geometry, NullGeometry and all 7 concrete types must round trip and reject other types.",
+    "Generated-input search over geometry models (7 types x 4 coordinate types, empties at every position, nesting depth 4, zero values, all float64 classes incl. NaN/Inf in Z/M) x per-element byte order x trailing bytes. Oracles: an independent WKB writer/reader written from the ISO spec and bit-wise structural comparison of model trees; library decode must invert library encode and the independent mixed-endian encoding, re-encode must reproduce bytes, Value/Scan of Geometry, NullGeometry and all 7 concrete types (destinations pre-populated with another value) must round trip and reject other types.",
     "Trusted: independent codec (internal/codec/wkb.go), gm model conversion (read-back checked per case), rapid. Scan paths are exercised only on cases the library validates (valid-by-construction family, about 80% of cases).",
     "property-based testing (rapid): round-trip + differential against an independent codec",
     "DESIGN.md C04")
@@ -43,12 +43,12 @@ add("C18", "exploration",
 
 
 add("C06", "exploration",
-    "Three generated families: valid geometry models -> MarshalJSON checked by encoding/json and an RFC 7946 structure validator, and UnmarshalGeoJSON / json.Unmarshal into Geometry and all 7 concrete types compared with the harness-computed image (M dropped, empty Points omitted from MultiPoints, Z kept iff a position exists); grammar-generated GeoJSON documents (positions of length 0..5, wrong nesting, non-numeric elements, null/missing members, unknown types) with the expected outcome computed from the document; Features/FeatureCollections with generated ids, properties and foreign members compared as decoded JSON, malformed features rejected.",
+    "Three generated families: valid geometry models -> MarshalJSON checked by encoding/json and an RFC 7946 structure validator, and UnmarshalGeoJSON / json.Unmarshal into Geometry and all 7 concrete types (destinations pre-populated with another value) compared with the harness-computed image (M dropped, empty Points omitted from MultiPoints, Z kept iff a position exists); grammar-generated GeoJSON documents (positions of length 0..5, wrong nesting, non-numeric elements, null/missing members, unknown types) with the expected outcome computed from the document; Features/FeatureCollections with generated ids, properties and foreign members compared as decoded JSON, malformed features rejected.",
     "Trusted: encoding/json, the RFC 7946 validator and document oracle in props/c06_test.go. Documents RFC 7946 leaves open (null coordinates, GeometryCollection without geometries, nulls nested in coordinates) are only required to be handled without panic / to decode to the empty geometry.",
     "property-based testing (rapid): round-trip against a format-loss model + grammar-based document generation",
     "DESIGN.md C06")
 add("C07", "exploration",
-    "Generated valid geometries with ordinates k/10^q x XY precision -8..7 x Z/M precisions x every subset of {size, bbox, id list, closed rings} x optional concatenation. An independent varint-level TWKB reader returns the integers and headers; exact rational rounding (math/big) gives the acceptable integers, the nearest float64 of K/10^p the expected decoded value; size header = bytes that follow, bbox header = min/max of the encoded integers and = envelope/Z/M ranges of the decoded geometry, id list verbatim, header-only readers agree, out-of-range precisions and id-count mismatches rejected, concatenated streams split by the size header.",
+    "Generated valid geometries with ordinates k/10^q x XY precision -8..7 x Z/M precisions x every subset of {size, bbox, id list, closed rings} in a drawn option order x optional concatenation. An independent varint-level TWKB reader returns the integers and headers; exact rational rounding (math/big) gives the acceptable integers, the nearest float64 of K/10^p the expected decoded value; size header = bytes that follow, bbox header = min/max of the encoded integers and = envelope/Z/M ranges of the decoded geometry, id list verbatim, header-only readers agree, out-of-range precisions and id-count mismatches rejected, concatenated streams split by the size header.",
     "Trusted: independent TWKB reader (internal/codec/twkb.go), math/big. Domain restricted to |ordinate x 10^p| < 2^52 (beyond it float64 cannot resolve the grid and the int64 varint overflows); ring structure is not compared when rounding merges a ring's last encoded vertex with its first (counted).",
     "property-based testing (rapid): exact-arithmetic rounding oracle + independent decoder",
     "DESIGN.md C07")
@@ -86,7 +86,7 @@ add("C09", "exploration",
     "property-based testing (rapid) vs exact-arithmetic and brute-force oracles",
     "DESIGN.md C09")
 add("C10", "exploration",
-    "Programs of 5..40 API calls drawn by reflection over the whole public read API (every exported value-receiver method of Geometry, the concrete types, Envelope, Sequence; 28 free functions) on a shared pool of 4 operands. Purity: canonical rendering of every operand unchanged after every call, after overwriting returned slices, after the concurrent phase; constructors do not retain slices; NewSequence's float slice never written; shared R-tree unchanged; decoder input buffers (WKB little-endian / big-endian / mixed byte order from the independent writer, TWKB, GeoJSON, Scan) are byte-identical after repeated and concurrent decodes of one shared buffer, which all return the same geometry. Determinism: every call repeated 8x/32x bit-identically, 1 case in 20 replayed in a fresh process. Concurrency: the program issued from 2..16 goroutines (GOMAXPROCS 2/4/16) in a -race binary with halt_on_error; results must equal the sequential transcript and the race detector must stay silent.",
+    "Programs of 5..40 API calls drawn by reflection over the whole public read API (every exported value-receiver method of Geometry, the concrete types, Envelope, Sequence; 28 free functions) on a shared pool of 4 operands (built by the public constructors or obtained from the WKT/WKB/GeoJSON/TWKB decoders), plus a fixed baseline of read-only observations (text, binary, dumps, summary, envelope, boundary, reverse, force, JSON) of every operand and Validate on 1..3 geometries built without validation. Purity: canonical rendering of every operand unchanged after every call, after overwriting returned slices, after the concurrent phase; constructors do not retain slices; NewSequence's float slice never written; shared R-tree unchanged; decoder input buffers (WKB little-endian / big-endian / mixed byte order from the independent writer, TWKB, GeoJSON, Scan) are byte-identical after repeated and concurrent decodes of one shared buffer, which all return the same geometry. Determinism: every call repeated 8x/32x bit-identically, 1 case in 20 replayed in a fresh process. Concurrency: the program issued from 2..16 goroutines (GOMAXPROCS 2/4/16) in a -race binary with halt_on_error; results must equal the sequential transcript and the race detector must stay silent.",
     "Schedules are sampled, not enumerated (the Go scheduler cannot be controlled from a property library); the race detector's happens-before analysis flags conflicting unsynchronised accesses that occur in a run. Trusted: reflection-based argument synthesis respects documented preconditions.",
     "property-based testing (rapid): generated API programs, repetition, differential process, race detector",
     "DESIGN.md C10")
@@ -121,12 +121,12 @@ add("C17", "exploration",
     "property-based testing (rapid) vs exact-arithmetic contracts",
     "DESIGN.md C17")
 add("C19", "exploration",
-    "Nine projections x drawn configurations (centre/origin incl. exactly and nearly polar centres for the azimuthal ones, standard parallels in both hemispheres and orders, radius, zoom) x points (centre itself, standard parallels, graticule, random) in each implementation's well-conditioned domain, plus the enumerated graticule for fixed configurations: Forward finite, Reverse(Forward(p)) within 1e-9 degrees (NaN fails), equal-area / conformal / equidistant character by central-difference Jacobians, standard parallels true to scale, web Mercator square/centre/orientation.",
+    "Nine projections x drawn configurations (centre/origin incl. exactly and nearly polar centres for the azimuthal ones, standard parallels in both hemispheres and orders, radius, zoom; setters called in either order, after a previous configuration, or left at their documented defaults) x points (centre itself, standard parallels, graticule, random) in each implementation's well-conditioned domain, plus the enumerated graticule for fixed configurations: Forward finite, Reverse(Forward(p)) within 1e-9 degrees (NaN fails), equal-area / conformal / equidistant character by central-difference Jacobians, standard parallels true to scale, web Mercator square/centre/orientation.",
     "Trusted: math package. Singular configurations (equal or symmetric standard parallels, cos(p1)=0) are excluded.",
     "property-based testing (rapid) + graticule enumeration: round-trip and metamorphic Jacobian identities",
     "DESIGN.md C19")
 add("C20", "exploration",
-    "Every exported value-receiver method (found by reflection; 351 distinct) and 28 free functions invoked with receivers/arguments from an empties zoo (zero values, typed empties in 4 coordinate types, collections of empties, nested) and real geometries: no panic; documented neutral answers for empty receivers; geom.Geometry{} vs an explicit empty GeometryCollection give identical canonical results; transparency: g (optionally nested in extra collections) vs g+ (empty members inserted at drawn positions and nesting depths, also inside inner non-empty collections) agree on measures, envelope, hull, distance, intersects, DE-9IM, all predicates and the point sets of all set operations.",
+    "Every exported value-receiver method (found by reflection; 351 distinct) and 28 free functions invoked with receivers/arguments from an empties zoo (zero values, typed empties in 4 coordinate types, collections of empties, nested) and real geometries: no panic; documented neutral answers for empty receivers; geom.Geometry{} vs an explicit empty GeometryCollection give identical canonical results; transparency: g (optionally nested in extra collections) vs g+ (empty members inserted at drawn positions and nesting depths, also inside inner non-empty collections) agree on measures, envelope (also as carried by the TWKB bounding-box header), hull, distance, intersects, DE-9IM, all predicates and the point sets of all set operations.",
     "Trusted: argument synthesis respects documented preconditions (valid indices, MustAsX on the matching type, Densify > 0); point-set equality by the exact kernel. Free functions not in the table are listed in the evidence (uncovered_api).",
     "property-based testing (rapid) over a reflection-enumerated API: totality + differential + metamorphic",
     "DESIGN.md C20")
